@@ -123,7 +123,7 @@ META = {
              "tied to the code on every run through the hook VerifReaderScript (same schedules, in-kernel vm_compute); the property "
              "itself searched on the real Parse (tree incl. positions or error) under one-byte, data+EOF, split-point and random "
              "chunked readers over the repository's test literals and a fixed mutation enumeration, 5 variants."),
-    "note": ("Universal statements are about the reader model; the parser above it is covered by the search only. Trusted: Coq "
+    "note": ("The rune-stream theorem holds for all byte inputs incl. split and invalid UTF-8. Universal statements are about the reader model; the parser above it is covered by the search only. Trusted: Coq "
              "kernel + vm_compute, hand-written model (tie = differential testing). Six defects found and repaired by fix: commits."),
     "design_ref": "DESIGN.md 4 C07",
 }
